@@ -86,6 +86,9 @@ if __name__ == "__main__":
     for sid in ids:
         meta = json.load(open(os.path.join(SEEDED, sid, "meta.json")))
         props = [meta["property"]] if "--own-only" in sys.argv else claimed()
+        if "--family" in sys.argv:
+            fam = ["C02", "C03", "C04", "C05", "C06", "C07", "C11", "C12", "C15", "C20"]
+            props = [p for p in props if p in fam or p == meta["property"]]
         if "--no-c01" in sys.argv:
             props = [p for p in props if p != "C01" or meta["property"] == "C01"]
         evaluate(sid, props)
